@@ -1909,6 +1909,30 @@ def signal_exc_ensures():
     return [("encryption-signal-of-the-decoder-is-passed-on-unchanged", preserved), ("encryption-signal-only-from-the-decoder", only_from_decoder)]
 
 
+def extractor_raises(tag):
+    """Raise clauses of a format extractor as seen by read_archive: (1) the file-encrypted error, (2) anything else.  Which of
+    the two produced the exception is recorded in the CALLER's ghost state (on the extractor's own body both are just `may raise`)."""
+    def w_enc(c):
+        if not _verifying(c):
+            c.st.ghost["extractor_raised"] = (tag, True)
+        return z3.BoolVal(True)
+
+    def w_other(c):
+        if not _verifying(c):
+            c.st.ghost["extractor_raised"] = (tag, False)
+        return z3.BoolVal(True)
+    return [Raises(ENCERR, sub=True, when=w_enc, label="the file-encrypted error"), Raises("Exception", sub=True, when=w_other)]
+
+
+def ran(tag, post):
+    """Normal-completion clause that also records (at call sites only) that this extractor ran to completion."""
+    def e(c):
+        if not _verifying(c):
+            c.st.ghost["extractor_completed"] = tag
+        return post(c)
+    return e
+
+
 def archive_contracts(reg):
     out = []
     AP = [("file_like", p_ext("BytesIO")), ("archive_path", p_opt(p_str()))]
@@ -1955,8 +1979,8 @@ def archive_contracts(reg):
     t = f"{ARCH}::_extract_from_zip_optimized"
     cz = FnContract(
         target=t, params=AP, generator=True, modifies=("file_like",), requires=stash_input,
-        ensures=[("completes-only-if-no-member-is-flagged", lambda c: z3.Not(spec_zip_enc(zf_of(c))))],
-        raises=[Raises("Exception", sub=True)],
+        ensures=[("completes-only-if-no-member-is-flagged", ran("zip", lambda c: z3.Not(spec_zip_enc(zf_of(c)))))],
+        raises=extractor_raises("zip"),
         exc_ensures=[("flagged-member-implies-encrypted-error-before-any-read-or-result", zip_if),
                      ("encrypted-error-only-if-some-member-has-flag-bit-0", zip_only_if)],
         loops={},
@@ -2001,8 +2025,8 @@ def archive_contracts(reg):
     t = f"{ARCH}::_extract_from_7z_optimized"
     c7 = FnContract(
         target=t, params=AP, generator=True, modifies=("file_like",), requires=z7_req,
-        ensures=[("completes-only-if-no-aes-coder", lambda c: z3.Not(z3.Or(spec_7z_folders_enc(rv_of(c)), HDRAES(f_of(c)))))],
-        raises=[Raises("Exception", sub=True)],
+        ensures=[("completes-only-if-no-aes-coder", ran("7z", lambda c: z3.Not(z3.Or(spec_7z_folders_enc(rv_of(c)), HDRAES(f_of(c))))))],
+        raises=extractor_raises("7z"),
         exc_ensures=[("aes-folder-coder-implies-encrypted-error-before-extractall-or-result", z7_if_folders),
                      ("aes-coded-header-implies-encrypted-error", z7_if_header),
                      ("encrypted-error-only-if-an-aes-coder-exists", z7_only_if)],
@@ -2019,6 +2043,70 @@ def archive_contracts(reg):
     c7.on_extractall, c7.on_yield = z7_on_extractall, z7_on_yield
     EXECUTOR_KW[t] = {"abstract": True, "inline_calls": False, "inline_local": True}
     out.append(c7)
+
+    # ---------------- read_archive: the archive ENTRY POINT (round 7: had no contract at all)
+    never_enc = ("never-rejects-as-encrypted", lambda c: z3.Not(is_enc_err(c)) if (own(c) or not _verifying(c)) else z3.BoolVal(True))
+    ctar = FnContract(
+        target=f"{ARCH}::_extract_from_tar_optimized", generator=True, modifies=("file_like",),
+        params=[("file_like", p_ext("BytesIO")), ("archive_path", p_opt(p_str())), ("mode", p_str())],
+        ensures=[("tar-completed", ran("tar", lambda c: z3.BoolVal(True)))], raises=extractor_raises("tar"),
+        exc_ensures=[never_enc],
+        note="TAR has no encryption: the extractor has no rejection of its own (no `raise` of the file-encrypted error; member "
+             "failures never escape _process_archive_entry, C01) -- so read_archive cannot reject a TAR as encrypted")
+    EXECUTOR_KW[ctar.target] = {"abstract": True, "inline_calls": False, "inline_local": False}
+    out.append(ctar)
+    cdet = FnContract(
+        target=f"{ARCH}::_detect_archive_type_optimized", params=[("file_like", p_ext("BytesIO"))], modifies=("file_like",),
+        result_maker=lambda ex, st, ctx: [(None, NONE), (None, VStr(z3.String(fresh_name("archive_type"))))], raises=[Raises("Exception", sub=True)],
+        ensures=[("None-or-a-format-name", lambda c: z3.BoolVal(c.result is NONE or isinstance(c.result, VStr)))],
+        exc_ensures=[never_enc],
+        note="magic-number sniffing: None or a format name, or a library failure -- never the file-encrypted error (which format a "
+             "container is routed to is C09's business; every format extractor has its own two-sided contract here)")
+    EXECUTOR_KW[cdet.target] = {"inline_calls": False, "inline_local": False}
+    out.append(cdet)
+
+    def enc_container(c):
+        f = c.args["file_like"].t
+        return z3.Or(spec_zip_enc(ZIP_OF(f)), spec_7z_folders_enc(RV_OF(SZ_OF(f))), HDRAES(f))
+
+    def ra_only_if(c):
+        c.note = "read_archive raises the file-encrypted error itself, or passes one on from something that is not a format extractor"
+        a = c.exc.attrs if c.exc is not None else {}
+        src = str(a.get("from_callee", ""))
+        from_extractor = "site" not in a and src.endswith(("::_extract_from_zip_optimized", "::_extract_from_7z_optimized"))
+        return z3.Implies(is_enc_err(c), z3.And(z3.BoolVal(from_extractor), enc_container(c)))
+
+    def ra_passed_on(c):
+        c.note = "the format extractor left with the file-encrypted error but read_archive reports something else"
+        tag, was_enc = c.st.ghost.get("extractor_raised", (None, False))
+        return z3.Implies(z3.BoolVal(bool(was_enc)), is_enc_err(c))
+
+    def ra_complete(c):
+        tag = c.st.ghost.get("extractor_completed")
+        if tag == "zip":
+            return z3.Not(spec_zip_enc(ZIP_OF(c.args["file_like"].t)))
+        if tag == "7z":
+            f = c.args["file_like"].t
+            return z3.Not(z3.Or(spec_7z_folders_enc(RV_OF(SZ_OF(f))), HDRAES(f)))
+        return z3.BoolVal(tag == "tar")
+
+    def ra_on_yield(ex, st, v, node):
+        # read_archive has no result of its own: everything it yields is delegated (`yield from`) to a format extractor
+        ex.add_vc("typestate", "no-result-of-its-own-before-a-format-extractor-ran", st.pc,
+                  z3.BoolVal(isinstance(node, ast.YieldFrom)), loc=ex.loc(node))
+    t = f"{ARCH}::read_archive"
+    cra = FnContract(
+        target=t, params=[("file_like", p_ext("BytesIO")), ("path", p_opt(p_str()))], generator=True, modifies=("file_like",),
+        requires=stash_input,
+        ensures=[("completes-only-after-a-format-extractor-completed-on-a-container-that-is-not-encrypted", ra_complete)],
+        raises=[Raises("Exception", sub=True)],
+        exc_ensures=[("file-encrypted-error-of-the-format-extractor-is-passed-on-unchanged", ra_passed_on),
+                     ("encrypted-error-only-from-the-zip-or-7z-extractor-on-an-encrypted-container", ra_only_if)],
+        note="archive entry point: dispatches to the ZIP / 7z / TAR extractor; `except ExtractionError: raise` lets the extractor's "
+             "file-encrypted error escape as such (not wrapped into ExtractionFailedError), and nothing else raises it")
+    cra.on_yield = ra_on_yield
+    EXECUTOR_KW[t] = {"inline_calls": False, "inline_local": False}       # exact execution: every callee has a contract
+    out.append(cra)
 
     # ---------------- sevenzip.py: needs_password / _apply_decoder
     def folders_maker():
